@@ -426,15 +426,15 @@ theorem modulesRun_spec (s : PyVal) (a : ModulesArgs) :
   | ok r =>
     obtain ⟨c, u⟩ := r
     simp only
-    by_cases h4 : Str.startsWith a.modulemdPath ['/'] = true
-    · simp only [h4, ↓reduceIte]
-    simp only [h4, ↓reduceIte, Bool.false_eq_true]
     by_cases h5 : a.kojiTag.isEmpty = true
-    · simp only [h5, ↓reduceIte]
-    simp only [h5, ↓reduceIte, Bool.false_eq_true, Bool.false_or]
+    · simp only [h5, ↓reduceIte, Bool.or_true, Bool.true_or]
+    simp only [h5, ↓reduceIte, Bool.false_eq_true, Bool.false_or, Bool.or_false]
     by_cases h6 : a.modulemdPath.isEmpty = true
     · simp only [h6, ↓reduceIte]
     simp only [h6, ↓reduceIte, Bool.false_eq_true]
+    by_cases h4 : Str.startsWith a.modulemdPath ['/'] = true
+    · simp only [h4, ↓reduceIte]
+    simp only [h4, ↓reduceIte, Bool.false_eq_true]
     cases hr : a.rpms with
     | other => simp only [↓reduceIte]
     | list xs => simp only [Bool.false_eq_true, ↓reduceIte, modulesInsert, hr]; exact outNorm _
